@@ -355,6 +355,63 @@ def case_repart_size(ctx, inp):
         ctx.branch("size-more")
 
 
+def _graph_tasks(x):
+    """{key: comparable task description} of the lowered graph of a collection"""
+    g = dict(x.__dask_graph__())
+    return {k: repr(v) for k, v in g.items()}
+
+
+def case_joint(ctx, inp):
+    """JOINT / HISTORY: several repartitions of the SAME source in ONE graph (dask.compute(r1, r2, …), dd.concat) and one
+    after the other in one process. Every result must have the source's rows in order — whatever else is in the graph —
+    and two differently parameterised expressions may only share a graph key when the tasks behind it are the same."""
+    import dask
+    dd = U.dd()
+    keys, divs, ops = inp["parts"], inp.get("divs"), inp["ops"]
+    d = U.frame_from_parts(keys, divisions=divs)
+    nrows = sum(len(k) for k in keys)
+    want = list(range(nrows))
+    with dask.config.set(scheduler="sync"):
+        rs = []
+        for op in ops:
+            try:
+                rs.append(d.repartition(**op))
+            except ValueError:
+                ctx.branch("joint-variant-rejected")
+                return
+        try:
+            solo = [[int(v) for v in r.compute().v] for r in rs]          # history: one after the other
+            joint = [[int(v) for v in x.v] for x in dask.compute(*rs)]    # one graph
+            rev = [[int(v) for v in x.v] for x in dask.compute(*rs[::-1])][::-1]
+            cat = [int(v) for v in dd.concat(rs).compute().v] if len(rs) > 1 else sum(joint, [])
+            again = [[int(v) for v in r.compute().v] for r in rs]
+        except Exception as e:  # noqa: BLE001
+            ctx.fail("joint evaluation of repartitions raised: " + U.exc_name(e), observed=[ops, U.exc_name(e)])
+            return
+        tasks = [_graph_tasks(r) for r in rs]
+    for name, got in (("computed alone", solo), ("in dask.compute(r1, r2, …)", joint), ("in dask.compute(…, r2, r1)", rev),
+                      ("computed alone again afterwards", again)):
+        for op, g in zip(ops, got):
+            if g != want:
+                ctx.fail(f"repartition({op}) {name} does not return the source rows in order", observed=[ops, g[:40], len(g)],
+                         expected=nrows)
+    if cat != want * len(rs):
+        ctx.fail("dd.concat of several repartitions of one source: rows duplicated / lost", observed=[ops, len(cat)],
+                 expected=nrows * len(rs))
+    for a in range(len(rs)):
+        for b in range(a + 1, len(rs)):
+            if ops[a] == ops[b]:
+                continue
+            clash = [k for k in tasks[a].keys() & tasks[b].keys() if tasks[a][k] != tasks[b][k]]
+            if clash:
+                ctx.fail("two differently parameterised repartitions of one source use the same graph key for different tasks",
+                         observed=[ops[a], ops[b], str(sorted(map(str, clash))[:3])])
+    kinds = sorted({next(iter(op)) for op in ops})
+    ctx.branch("joint-" + "+".join(kinds))
+    if sum("partition_size" in op for op in ops) >= 2:
+        ctx.branch("joint-two-sizes")
+
+
 def case_from_pandas(ctx, inp):
     """from_pandas with npartitions / chunksize keeps exactly the same rows (in order when sort=False or the
     index is already sorted; in index order otherwise)"""
@@ -394,7 +451,8 @@ def case_from_pandas(ctx, inp):
 
 CASES = {"tofewer_bounds": case_tofewer_bounds, "split_evenly": case_split_evenly, "nsplits": case_nsplits,
          "div_layer": case_div_layer, "boundary_slice": case_boundary_slice, "repartition": case_repartition,
-         "from_pandas": case_from_pandas, "iter_chunks": case_iter_chunks, "repart_size": case_repart_size}
+         "from_pandas": case_from_pandas, "iter_chunks": case_iter_chunks, "repart_size": case_repart_size,
+         "joint": case_joint}
 
 
 def _rand_new_divs(rng, a, force):
@@ -509,6 +567,25 @@ def generate(ctx):
             r = rng.choice([len(k) for k in keys if k] or [1]) * rng.choice([1, 1, 2])
             size = max(1, 16 * r + rng.choice([-1, 0, 1]))
         yield "repart_size", {"parts": keys, "size": size}
+    # joint / history stream: several repartitions of one source in one graph and one after the other
+    for _ in range(ctx.n(40, 600)):
+        nparts = rng.randint(1, 5)
+        known = rng.random() < 0.5
+        divs = U.rand_divisions(rng, nparts, 0, rng.choice([8, 14, 30])) if known else None
+        keys = (U.rand_truthful_parts(rng, divs, maxrows=rng.choice([4, 12])) if known
+                else [sorted(rng.randint(0, 30) for _ in range(rng.choice([1, 3, 6, 14, 30]))) for _ in range(nparts)])
+        rowsz = [16 * len(k) for k in keys if k] or [16]
+        ops = []
+        for _k in range(rng.choice([2, 2, 3])):
+            t = rng.random()
+            if t < 0.55:
+                # sizes that split the larger partitions into different numbers of pieces
+                ops.append({"partition_size": max(16, rng.choice(rowsz) // rng.choice([1, 2, 3, 4]) + rng.choice([0, 1, 8]))})
+            elif t < 0.85 or not known:
+                ops.append({"npartitions": rng.randint(1, 9)})
+            else:
+                ops.append({"divisions": _rand_new_divs(rng, divs, False)})
+        yield "joint", {"parts": keys, "divs": divs, "ops": ops}
     # partition counts whose ratio is not exactly representable (15->11, 26->23, 30->11 ...): API level
     hard = [(o, n) for o in range(2, 41) for n in range(1, o) if int(n * (o / n)) != o or [int(i * (o / n)) for i in range(n + 1)] != [i * o // n for i in range(n + 1)]]
     picks = hard if ctx.thorough() else rng.sample(hard, min(len(hard), 12))
